@@ -1,101 +1,13 @@
-"""Per-property wiring: which engines produce the cases, what the evidence says."""
-PROPS = {
-    "C15": {
-        "engines": ["rt"],
-        "level_text": "Theorems for all uint64 values, all buffers/offsets and all byte strings about a Gallina model of runtime.Sov/Soz/EncodeVarint/Skip (sizes equal protowire's formula and the writer's length; the writer stores exactly the minimal varint ending at the offset, touches nothing else, panics exactly when room is missing; Skip never panics, terminates, progresses, returns the exact length of any well-formed record incl. nested groups); the model is run against the Go functions and protowire on ~125k inputs per quick run.",
-        "level_note": "Trusted: Coq kernel, extraction (ExtrOcamlBasic), OCaml driver, Go runner; the model is hand-written and tied to runtime.go by differential testing only. Go slices assumed shorter than 2^63 bytes.",
-        "rule": "Sov/Soz: every bit-length boundary +-1, 7k-bit boundaries, sign-extended int32 patterns, random 64-bit; EncodeVarint: those values x buffer lengths x every offset incl. the panicking ones; Skip: all byte strings of length <=2, all strings of length 3..4 over a 13-byte alphabet, random well-formed records (nested groups) + truncations, bit flips, adversarial lengths, overlong varints. distinct_nontrivial counts distinct (function, bit-length/outcome class, 12-byte input prefix) keys.",
-        "trusted": ["google.golang.org/protobuf/encoding/protowire v1.34.0 as the reference for the implementation-side predicate"],
-        "assumptions": ["Go's bits.Len64, integer shifts and slice indexing behave as transcribed in Model/Runtime.v"],
-    },
-    "C17": {
-        "engines": ["time"],
-        "rule": "Add: full product of timestamp seconds (range extremes, 0, +-1) x nanos boundaries x duration seconds x duration nanos of both signs (every carry/borrow boundary), int64 extremes for the overflow clause, then random valid pairs biased to nanos sums near 0 and 1e9; AddStd and Compare on the same. distinct_nontrivial counts distinct (class, outcome, sign of nanos-sum - 1e9, sign of nanos-sum, sign of duration) keys.",
-        "level_text": "Theorems for all valid timestamps/durations (and, for the overflow clause, all int64 seconds) about a Gallina model of timepb.Add/AddStd/Compare with Go's int64/int32 wrap-around written out: Add is exact, normalised and never panics on valid inputs, equals AddStd on every time.Duration, panics whenever the carried seconds sum leaves int64; Compare is the chronological total order. The model is run against the Go functions and a math/big oracle on ~50k cases per quick run.",
-        "level_note": "Trusted: Coq kernel, extraction, OCaml driver, Go runner; time.Time arithmetic inside AddStd is modelled as exact integer arithmetic (validated by the run, not proved); 'returns a fresh value' is checked on the implementation only (pointer inequality, arguments unchanged).",
-        "trusted": ["math/big and timestamppb/durationpb CheckValid as the implementation-side oracle"],
-        "assumptions": ["time.Time.Add is exact for instants reachable from a valid Timestamp by an int64 nanosecond offset"],
-    },
-    "C01": {
-        "engines": ['codec'],
-        "rule": 'Schemas: kind x shape x tag-width matrix (vm), sint oneof members (vmz), well-known types across packages (vw), renamed copies of the checked-in schemas regenerated by the working-tree plugin (vtestpb, vtest3) and the checked-in packages themselves. Values: the empty message, one-hot messages (each field alone with each boundary value of its kind: 7k-bit varint boundaries, int extremes, -0/inf/quiet and signalling NaNs, 126/127/128-byte strings), random messages of density 2..8 with nil/empty containers, nil list elements / map values / oneof payloads, unknown records of every wire type. distinct_nontrivial counts distinct (schema, message, class, populated-slot signature) keys.',
-        "level_text": "Round-trip theorems on the schema-parametric model (Properties/C01.v) + the extracted model run against freshly generated and checked-in code on every value (bytes, size, decode result) + the property's own predicate on the implementation (decode(encode v) = norm v in both marshal modes, Marshal never fails for valid UTF-8).",
-        "level_note": 'Trusted: Coq kernel, extraction, OCaml driver, Go runner (value builder/reader through package reflect + struct tags, dynamicpb as the reference holding the same value). The model (Model/Codec.v, Model/Decode.v) is hand-written and schema-parametric; it is tied to the code emitted by the working-tree generator by running both on every case of the run: agreement outside the exercised schemas/values is modelled, not verified.',
-        "trusted": ["google.golang.org/protobuf v1.34.0 (proto, dynamicpb, protowire) as the reference", "protodesc.NewFiles as the judge of schema validity in place of protoc"],
-        "assumptions": ["Go slices/maps/append/conversions behave as transcribed in the model", "Go map iteration is modelled as an arbitrary order"],
-    },
-    "C02": {
-        "engines": ['codec'],
-        "rule": 'Schemas: kind x shape x tag-width matrix (vm), sint oneof members (vmz), well-known types across packages (vw), renamed copies of the checked-in schemas regenerated by the working-tree plugin (vtestpb, vtest3) and the checked-in packages themselves. Values: the empty message, one-hot messages (each field alone with each boundary value of its kind: 7k-bit varint boundaries, int extremes, -0/inf/quiet and signalling NaNs, 126/127/128-byte strings), random messages of density 2..8 with nil/empty containers, nil list elements / map values / oneof payloads, unknown records of every wire type. distinct_nontrivial counts distinct (schema, message, class, populated-slot signature) keys.',
-        "level_text": 'Theorems relating the faithful encoder model to an independently written reference encoder specification (Properties/C02.v: generation-time key bytes = varint of num<<3|wt for every field number, field order, map order) + model vs generated code + generated code vs dynamicpb deterministic bytes on every value.',
-        "level_note": 'Trusted: Coq kernel, extraction, OCaml driver, Go runner (value builder/reader through package reflect + struct tags, dynamicpb as the reference holding the same value). The model (Model/Codec.v, Model/Decode.v) is hand-written and schema-parametric; it is tied to the code emitted by the working-tree generator by running both on every case of the run: agreement outside the exercised schemas/values is modelled, not verified.',
-        "trusted": ["google.golang.org/protobuf v1.34.0 (proto, dynamicpb, protowire) as the reference", "protodesc.NewFiles as the judge of schema validity in place of protoc"],
-        "assumptions": ["Go slices/maps/append/conversions behave as transcribed in the model", "Go map iteration is modelled as an arbitrary order"],
-    },
-    "C04": {
-        "engines": ['codec'],
-        "rule": 'Schemas: kind x shape x tag-width matrix (vm), sint oneof members (vmz), well-known types across packages (vw), renamed copies of the checked-in schemas regenerated by the working-tree plugin (vtestpb, vtest3) and the checked-in packages themselves. Values: the empty message, one-hot messages (each field alone with each boundary value of its kind: 7k-bit varint boundaries, int extremes, -0/inf/quiet and signalling NaNs, 126/127/128-byte strings), random messages of density 2..8 with nil/empty containers, nil list elements / map values / oneof payloads, unknown records of every wire type. distinct_nontrivial counts distinct (schema, message, class, populated-slot signature) keys.',
-        "level_text": 'Theorem size = length of the emitted bytes for every schema and value incl. nil/empty nested values (Properties/C04.v), hence Marshal never panics nor pads + model vs implementation on Size and bytes + Size/len(Marshal)/reference size and MarshalAppend prefix checks on the implementation.',
-        "level_note": 'Trusted: Coq kernel, extraction, OCaml driver, Go runner (value builder/reader through package reflect + struct tags, dynamicpb as the reference holding the same value). The model (Model/Codec.v, Model/Decode.v) is hand-written and schema-parametric; it is tied to the code emitted by the working-tree generator by running both on every case of the run: agreement outside the exercised schemas/values is modelled, not verified.',
-        "trusted": ["google.golang.org/protobuf v1.34.0 (proto, dynamicpb, protowire) as the reference", "protodesc.NewFiles as the judge of schema validity in place of protoc"],
-        "assumptions": ["Go slices/maps/append/conversions behave as transcribed in the model", "Go map iteration is modelled as an arbitrary order"],
-    },
-    "C05": {
-        "engines": ['codec'],
-        "rule": 'Schemas: kind x shape x tag-width matrix (vm), sint oneof members (vmz), well-known types across packages (vw), renamed copies of the checked-in schemas regenerated by the working-tree plugin (vtestpb, vtest3) and the checked-in packages themselves. Values: the empty message, one-hot messages (each field alone with each boundary value of its kind: 7k-bit varint boundaries, int extremes, -0/inf/quiet and signalling NaNs, 126/127/128-byte strings), random messages of density 2..8 with nil/empty containers, nil list elements / map values / oneof payloads, unknown records of every wire type. distinct_nontrivial counts distinct (schema, message, class, populated-slot signature) keys.',
-        "level_text": 'Theorem: the deterministic encoding does not depend on the order of map association lists at any depth (Properties/C05.v) + repeated marshalling and alternative construction histories on the implementation.',
-        "level_note": 'Trusted: Coq kernel, extraction, OCaml driver, Go runner (value builder/reader through package reflect + struct tags, dynamicpb as the reference holding the same value). The model (Model/Codec.v, Model/Decode.v) is hand-written and schema-parametric; it is tied to the code emitted by the working-tree generator by running both on every case of the run: agreement outside the exercised schemas/values is modelled, not verified.',
-        "trusted": ["google.golang.org/protobuf v1.34.0 (proto, dynamicpb, protowire) as the reference", "protodesc.NewFiles as the judge of schema validity in place of protoc"],
-        "assumptions": ["Go slices/maps/append/conversions behave as transcribed in the model", "Go map iteration is modelled as an arbitrary order"],
-    },
-    "C07": {
-        "engines": ['codec', 'decode'],
-        "rule": 'Schemas: kind x shape x tag-width matrix (vm), sint oneof members (vmz), well-known types across packages (vw), renamed copies of the checked-in schemas regenerated by the working-tree plugin (vtestpb, vtest3) and the checked-in packages themselves. Values: the empty message, one-hot messages (each field alone with each boundary value of its kind: 7k-bit varint boundaries, int extremes, -0/inf/quiet and signalling NaNs, 126/127/128-byte strings), random messages of density 2..8 with nil/empty containers, nil list elements / map values / oneof payloads, unknown records of every wire type. distinct_nontrivial counts distinct (schema, message, class, populated-slot signature) keys.',
-        "level_text": 'Frame theorems on the model + scribble tests on the implementation: input buffer unchanged and overwritable after Unmarshal, Marshal output overwritable, struct unchanged (nil-vs-empty included) around Size/Marshal.',
-        "level_note": 'Trusted: Coq kernel, extraction, OCaml driver, Go runner (value builder/reader through package reflect + struct tags, dynamicpb as the reference holding the same value). The model (Model/Codec.v, Model/Decode.v) is hand-written and schema-parametric; it is tied to the code emitted by the working-tree generator by running both on every case of the run: agreement outside the exercised schemas/values is modelled, not verified.',
-        "trusted": ["google.golang.org/protobuf v1.34.0 (proto, dynamicpb, protowire) as the reference", "protodesc.NewFiles as the judge of schema validity in place of protoc"],
-        "assumptions": ["Go slices/maps/append/conversions behave as transcribed in the model", "Go map iteration is modelled as an arbitrary order"],
-    },
-    "C03": {
-        "engines": ['decode'],
-        "rule": 'Streams: (a) encodings of random values re-serialised by a well-typedness-preserving mutator at every nesting depth (reorder, duplicate, split/merge packed runs, pack/unpack, split singular and oneof message records, map entries with reordered/missing/duplicated key or value and unknown subfields, interleaved unknown records incl. groups, non-minimal tags, concatenations, Merge into a non-empty message, DiscardUnknown); (b) truncations at every offset, bit flips, adversarial lengths (2^31, 2^63-1, 2^63, 2^64-1), every field number x every wire type x 8 tails, field numbers >= 2^29 and = known mod 2^32, random bytes, nesting depth 100/9999/10000/10001/20000. distinct_nontrivial counts distinct (message, class, outcome, 10-byte prefix) keys.',
-        "level_text": 'Theorems about the faithful decoder model on well-typed streams (Properties/C03.v) + three-way comparison model / generated code / dynamicpb on every mutated stream.',
-        "level_note": 'Trusted: Coq kernel, extraction, OCaml driver, Go runner (value builder/reader through package reflect + struct tags, dynamicpb as the reference holding the same value). The model (Model/Codec.v, Model/Decode.v) is hand-written and schema-parametric; it is tied to the code emitted by the working-tree generator by running both on every case of the run: agreement outside the exercised schemas/values is modelled, not verified.',
-        "trusted": ["google.golang.org/protobuf v1.34.0 (proto, dynamicpb, protowire) as the reference", "protodesc.NewFiles as the judge of schema validity in place of protoc"],
-        "assumptions": ["Go slices/maps/append/conversions behave as transcribed in the model", "Go map iteration is modelled as an arbitrary order"],
-    },
-    "C06": {
-        "engines": ['decode'],
-        "rule": 'Streams: (a) encodings of random values re-serialised by a well-typedness-preserving mutator at every nesting depth (reorder, duplicate, split/merge packed runs, pack/unpack, split singular and oneof message records, map entries with reordered/missing/duplicated key or value and unknown subfields, interleaved unknown records incl. groups, non-minimal tags, concatenations, Merge into a non-empty message, DiscardUnknown); (b) truncations at every offset, bit flips, adversarial lengths (2^31, 2^63-1, 2^63, 2^64-1), every field number x every wire type x 8 tails, field numbers >= 2^29 and = known mod 2^32, random bytes, nesting depth 100/9999/10000/10001/20000. distinct_nontrivial counts distinct (message, class, outcome, 10-byte prefix) keys.',
-        "level_text": 'Totality theorems for all byte strings on the faithful decoder model (never Panic, fuel suffices, depth bounded) + model vs generated code on malformed streams + panic/hang/allocation/depth observations on the implementation.',
-        "level_note": 'Trusted: Coq kernel, extraction, OCaml driver, Go runner (value builder/reader through package reflect + struct tags, dynamicpb as the reference holding the same value). The model (Model/Codec.v, Model/Decode.v) is hand-written and schema-parametric; it is tied to the code emitted by the working-tree generator by running both on every case of the run: agreement outside the exercised schemas/values is modelled, not verified.',
-        "trusted": ["google.golang.org/protobuf v1.34.0 (proto, dynamicpb, protowire) as the reference", "protodesc.NewFiles as the judge of schema validity in place of protoc"],
-        "assumptions": ["Go slices/maps/append/conversions behave as transcribed in the model", "Go map iteration is modelled as an arbitrary order"],
-    },
-    "C14": {
-        "engines": ['decode', 'codec'],
-        "rule": 'Streams: (a) encodings of random values re-serialised by a well-typedness-preserving mutator at every nesting depth (reorder, duplicate, split/merge packed runs, pack/unpack, split singular and oneof message records, map entries with reordered/missing/duplicated key or value and unknown subfields, interleaved unknown records incl. groups, non-minimal tags, concatenations, Merge into a non-empty message, DiscardUnknown); (b) truncations at every offset, bit flips, adversarial lengths (2^31, 2^63-1, 2^63, 2^64-1), every field number x every wire type x 8 tails, field numbers >= 2^29 and = known mod 2^32, random bytes, nesting depth 100/9999/10000/10001/20000. distinct_nontrivial counts distinct (message, class, outcome, 10-byte prefix) keys.',
-        "level_text": 'Theorems about unknown-field handling on the decoder/encoder models (Properties/C14.v) + per-level comparison with dynamicpb incl. DiscardUnknown and re-encoding.',
-        "level_note": 'Trusted: Coq kernel, extraction, OCaml driver, Go runner (value builder/reader through package reflect + struct tags, dynamicpb as the reference holding the same value). The model (Model/Codec.v, Model/Decode.v) is hand-written and schema-parametric; it is tied to the code emitted by the working-tree generator by running both on every case of the run: agreement outside the exercised schemas/values is modelled, not verified.',
-        "trusted": ["google.golang.org/protobuf v1.34.0 (proto, dynamicpb, protowire) as the reference", "protodesc.NewFiles as the judge of schema validity in place of protoc"],
-        "assumptions": ["Go slices/maps/append/conversions behave as transcribed in the model", "Go map iteration is modelled as an arbitrary order"],
-    },
-    "C08": {
-        "engines": ['reflect'],
-        "rule": "For every pulsar message type of every linked schema set (checked-in testpb/test3, their regenerated renamed copies, the kind x shape x tag-width matrix vm, vmz, well-known types vw): operation histories over Message (Has Get Set Clear Mutable NewField WhichOneof Range GetUnknown SetUnknown IsValid, new), List (Len Get Set Append AppendMutable Truncate NewElement IsValid) and Map (Len Has Get Set Clear Mutable NewValue Range IsValid) methods, receivers and composite arguments being results of earlier steps, scalars boundary literals (-0/NaN floats, int extremes, empty / nil / non-empty strings and bytes). Only well-scoped histories (handle liveness tracked by canonical path: a handle dies when the field/index/key it was obtained through is cleared or re-set, when another member of its oneof is written, when its allocation is attached; message/list/map arguments are fresh allocations used once, invalid views, or self-assignment). (1) exhaustive: ALL histories of length <= 2 (thorough: also length 3 on a 3-field alphabet) over a per-type alphabet of ~50 ops + the ops on every handle produced so far, on testpb.A and the matrix messages (length 1 elsewhere); (2) scripted per field: Mutable->write->Mutable again, Get before the container became non-empty, out-of-range / negative indexes, writes through invalid views, Set with invalid list/map/message, NewField->populate->Set->Get, self-assignment, Set member A->Set member B->Clear A->WhichOneof->Clear B for every ordered pair of members (zero values included), Mutable of scalars, Set/Get of 6 boundary values per scalar, SetUnknown/GetUnknown on root and nested message, oneof wrapper holding nil then Mutable; (3) 150 (thorough 3000) random histories of length <= 40 per type + 50 (1000) starting from a random populated value incl. nil containers / nil elements (HISTV). Every step is applied to the generated type (fast reflection), to dynamicpb and to a second struct of the same Go type through protobuf-go's struct-based reflection (every nested message re-wrapped with MessageInfo.MessageOf); compared per step: the returned value / validity flag / panic and the whole root message state (struct fields read through package reflect, normalised); at the end the Go getters. Steps on which the two references disagree are counted (unspecified_*) and end the history. distinct_nontrivial counts distinct (schema, message, last three ops) keys.",
-        "level_text": "Theorems (Properties/C08.v, proofs in Proofs/ReflectLaws.v) about Reflect.step, a schema-parametric Gallina model of the generated accessors over a heap of Go objects (nil kept distinct from empty), for ALL schemas, heaps, objects, fields and values: reads leave the heap unchanged; Has/Get after Set for every shape (singular scalar: proto3 presence; message; oneof member incl. zero values; list; map); Has/Get after Clear; Set of a member unpopulates the other members and WhichOneof names it; Clear of a member that is not the one set changes nothing; at most one member of a oneof Has in every heap; WhichOneof = the member for which Has holds; Range lists exactly the fields with Has = true, once each, in field order, with the value Get returns; List/Map views from Mutable write through; Mutable of a message is stable; Set of an invalid message panics; a shape invariant holds in every heap reachable by any history (induction over fold_left). The extracted model is run against the generated code on every history of the run (HIST/HISTV lines: every result and the raw root struct after every step), and the generated code against the common answer of two reference implementations.",
-        "level_note": "Trusted: Coq kernel, extraction (ExtrOcamlBasic), OCaml driver (driver/reflect_eval.ml: op parser, renderer), Go runner (history generator with liveness tracking, struct reader through package reflect). The model is hand-written and tied to the generated code only by running both on the histories of the run; aliasing after Set of a composite, use of dead handles, Truncate beyond Len and int32/int64 Value mix-ups are outside the API contract (the references disagree there) and are neither generated nor modelled. Theorems are about the model; `well-scoped` is a property of the generated histories, not a hypothesis of the theorems (they quantify over all heaps / all operands).",
-        "trusted": ["google.golang.org/protobuf v1.34.0: dynamicpb and the struct-based reflection (protoimpl.MessageInfo.MessageOf) as the two reference implementations; a step they disagree on is not compared"],
-        "assumptions": ["Go slices, maps, interface type switches and nil dereference behave as transcribed in Model/Reflect.v", "protoreflect.Value carries a float32 as float64: float32 signalling NaNs are kept out of the literals"],
-    },
-    "C09": {
-        "engines": ['reflectnil', 'reflect'],
-        "rule": "Engine reflectnil, exhaustive per pulsar message type T of every linked schema set: every way a nil or read-only empty message / list / map arises — typed nil pointer (*T)(nil).ProtoReflect(), T's MessageType.Zero(), Get of an unset message field, of an unset oneof message member, of a member while the oneof holds ANOTHER member, a oneof wrapper holding a nil message, a nil list element, a nil map value (structs built through package reflect), the message decoded from a map entry without value, Get of a nil and of an empty non-nil list / map — x every read accessor (Has, Get, WhichOneof, Range, IsValid, GetUnknown; on the views Len, IsValid, NewElement/NewValue, Map Has/Get/Range/Clear) x every field (access chains Get of Get of Get), each read compared with the same read on a fresh empty message of the type and required not to panic; x every store (Set with a valid scalar / fresh message / fresh populated list or map, Mutable, SetUnknown; List Append/Set/Truncate/AppendMutable; Map Set/Mutable) required to panic and to leave the enclosing message unchanged (Clear is recorded for the model but not demanded to panic: it stores nothing); + proto.Size / Marshal / Equal / Clone / Merge-from, prototext.Format and protojson.Marshal on the nil pointer, the zero message and every enclosing message, compared with dynamicpb holding the same value. Where dynamicpb and the struct-based reflection offer the same notion (origins without nil elements) the three implementations are compared step by step as in C08; for nil elements only the struct-based reflection can hold the value and differences are counted, not reported. Engine reflect adds the reads / stores on invalid receivers that occur in its histories. distinct_nontrivial counts distinct (schema, message, field, origin) keys.",
-        "level_text": "Theorems (Properties/C09.v, proofs in Proofs/ReflectLaws.v) about Reflect.step for ALL schemas, heaps, message types, fields, keys and values: every read of a nil message returns what it returns on a freshly allocated empty message of the type (Has false, WhichOneof none, Range nothing, no unknown fields, Get = default: zero scalar / the nil message again / the invalid view, so access chains of any length stay nil) and never panics; reads of the invalid list / map views are defined and see nothing; every write to a nil message (Set, Clear, Mutable, SetUnknown) and through an invalid list / map view (Set, Append, AppendMutable, Truncate; Map Set, Mutable) panics and leaves the heap unchanged; reads change nothing. The extracted model is run against the generated code on every nil-origin history (HIST/HISTV lines incl. ops `nil`/`zero`), and the property's own predicate is evaluated on the implementation.",
-        "level_note": "Trusted: Coq kernel, extraction, OCaml driver, Go runner (struct builder / reader through package reflect). The model is hand-written and tied to the generated code by the histories of the run. Library algorithms (proto.Equal/Clone/Merge, prototext, protojson) are exercised on the implementation and compared with dynamicpb; they are not modelled (C10).",
-        "trusted": ["google.golang.org/protobuf v1.34.0: dynamicpb's MessageType.Zero() and the struct-based reflection of the same Go type as references for reads of nil messages; proto/prototext/protojson as the generic library"],
-        "assumptions": ["Go nil dereference panics and nil map / slice reads behave as transcribed in Model/Reflect.v"],
-    },
-}
+"""Per-property wiring: which engines produce the cases, what the evidence says.
+One JSON file per property under lib/props.d/ (keys: engines, rule, level_text, level_note, trusted, assumptions, optional level,
+technique, design_ref, allowed_axioms, build_is_property, all_propfails). An engine entry is a name or [name, extra args...]."""
+import glob, json, os
 
+PROPS = {}
+for _p in sorted(glob.glob(os.path.join(os.path.dirname(os.path.abspath(__file__)), "props.d", "*.json"))):
+    _d = json.load(open(_p))
+    _d["engines"] = [e if isinstance(e, str) else tuple(e) for e in _d["engines"]]
+    PROPS[os.path.basename(_p)[:-5]] = _d
+
+# properties deliberately not claimed: id -> reason (everything else not in PROPS is reported as "not built yet")
 NOT_APPLICABLE = {}
